@@ -674,3 +674,122 @@ def _neox_world_consistent(self, work, topology):
 
 
 FUNCS['neox_world_consistent'] = _neox_world_consistent
+
+
+def _held_bytes(p):
+    """Bytes of the K-FAC tensors every layer of the preconditioner holds right now (C13 reference)."""
+    def b(t):
+        import torch
+        if t is None:
+            return 0
+        if not isinstance(t, torch.Tensor):
+            t = t.wait()
+        return t.nelement() * t.element_size()
+    out = {'a_factors': 0, 'g_factors': 0, 'a_batch': 0, 'g_batch': 0, 'a_inverses': 0, 'g_inverses': 0}
+    for _, l in p._layers.values():
+        out['a_factors'] += b(l._a_factor)
+        out['g_factors'] += b(l._g_factor)
+        out['a_batch'] += b(l._a_batch)
+        out['g_batch'] += b(l._g_batch)
+        if hasattr(l, '_a_inv'):
+            out['a_inverses'] += b(l._a_inv)
+            out['g_inverses'] += b(l._g_inv)
+        else:
+            out['a_inverses'] += b(l._qa) + b(l._da)
+            out['g_inverses'] += b(l._qg) + b(l._dg) + b(l._dgda)
+    if not p._layers:
+        out = {}
+    out['total'] = sum(out.values())
+    return out
+
+
+FUNCS['held_bytes_reference'] = _held_bytes
+
+
+# ---- C13 / C06 / C16: what KFACPreconditioner.__init__ must configure, written from the property statements
+def _ws():
+    import torch.distributed as dist
+    return dist.get_world_size() if dist.is_available() and dist.is_initialized() else 1
+
+
+def _ctor_must_reject(kw):
+    from kfac.enums import DistributedStrategy, ComputeMethod
+    if kw.get('allreduce_bucket_cap_mb', 25.0) < 0:
+        return True
+    cm = kw.get('compute_method', ComputeMethod.EIGEN)
+    cm = ComputeMethod[cm.upper()] if isinstance(cm, str) else cm
+    f = kw.get('grad_worker_fraction', DistributedStrategy.COMM_OPT)
+    if not isinstance(f, DistributedStrategy):
+        if not (0 <= f <= 1):
+            return True
+        W = _ws()
+        if f == 0:
+            f = 1.0 / W
+        # every k / world_size with k dividing world_size is accepted (C06); a fraction is rejected when the worker
+        # count max(1, world_size * fraction) is not an integer or does not divide the world into equal groups
+        g = max(1.0, W * f)
+        if abs(g - round(g)) > 1e-6 or W % max(1, round(W * f)) != 0 or W % round(g) != 0:
+            return True
+    return False
+
+
+def _config_reference(p, kw):
+    from kfac.enums import DistributedStrategy, ComputeMethod, AllreduceMethod
+    from kfac.layers.eigen import KFACEigenLayer
+    from kfac.layers.inverse import KFACInverseLayer
+    W = _ws()
+    f = kw.get('grad_worker_fraction', DistributedStrategy.COMM_OPT)
+    if isinstance(f, DistributedStrategy):
+        strat = f
+        frac = {DistributedStrategy.COMM_OPT: 1.0, DistributedStrategy.HYBRID_OPT: 0.5, DistributedStrategy.MEM_OPT: 1.0 / W}[f]
+    else:
+        frac = 1.0 / W if f == 0 else float(f)
+        strat = (DistributedStrategy.COMM_OPT if frac == 1 else
+                 DistributedStrategy.MEM_OPT if frac <= 1 / W else DistributedStrategy.HYBRID_OPT)
+
+    def bad(msg):
+        H.last_detail = msg
+        return False
+    if abs(p.grad_worker_fraction - frac) > 1e-12 or p.distributed_strategy != strat:
+        return bad(f'fraction/strategy {p.grad_worker_fraction}/{p.distributed_strategy} for request {f} in a world of {W}: expected {frac}/{strat}')
+    a = p._assignment
+    workers = max(1, round(W * frac))
+    if a.broadcast_gradients() != (workers < W) or a.broadcast_inverses() != (workers > 1):
+        return bad(f'broadcast flags ({a.broadcast_gradients()}, {a.broadcast_inverses()}) do not match {workers} gradient workers of {W}')
+    cap = kw.get('allreduce_bucket_cap_mb', 25.0)
+    want = AllreduceMethod.ALLREDUCE_BUCKETED if cap > 0 else AllreduceMethod.ALLREDUCE
+    cm = kw.get('compute_method', ComputeMethod.EIGEN)
+    cm = ComputeMethod[cm.upper()] if isinstance(cm, str) else cm
+    lt = KFACEigenLayer if cm == ComputeMethod.EIGEN else KFACInverseLayer
+    elig = _eligible(kw['model'], kw.get('skip_layers') or [])
+    if set(p._layers) != elig:
+        return bad('registered layers are not exactly the eligible modules')
+    for m, (name, l) in p._layers.items():
+        if type(l) is not lt or l.allreduce_method != want or l.tdc is not p._tdc or l.symmetry_aware != kw.get('symmetry_aware', False):
+            return bad(f'layer {name} is not configured as requested')
+        if lt is KFACEigenLayer and l.prediv_eigenvalues != kw.get('compute_eigenvalue_outer_product', True):
+            return bad(f'layer {name}: prediv_eigenvalues does not follow compute_eigenvalue_outer_product')
+        # every factor has an inverse worker inside the layer's gradient-worker group (C06 on the real object)
+        for fct in ('A', 'G'):
+            if not (0 <= a.inv_worker(name, fct) < W):
+                return bad('inverse worker out of range')
+    if p._tdc._bucket_cap_mb != cap:
+        return bad('bucket capacity not passed on')
+    colo = kw.get('colocate_factors', True) or strat == DistributedStrategy.MEM_OPT
+    if p.colocate_factors != colo:
+        return bad('colocate_factors must be forced under MEM-OPT')
+    return True
+
+
+FUNCS['kfac_config_reference'] = _config_reference
+FUNCS['kfac_ctor_must_reject'] = _ctor_must_reject
+
+
+def _inconsistent_outer_product(kw):
+    from kfac.enums import ComputeMethod
+    cm = kw.get('compute_method', ComputeMethod.EIGEN)
+    cm = ComputeMethod[cm.upper()] if isinstance(cm, str) else cm
+    return cm == ComputeMethod.EIGEN and kw.get('compute_eigenvalue_outer_product', True) and not kw.get('colocate_factors', True)
+
+
+FUNCS['kfac_inconsistent_outer_product'] = _inconsistent_outer_product
